@@ -16,7 +16,11 @@ import Panacea.Generated.Facts
   bytes coincide (`did_create_update_collide`); reproduced on the real `SignModeHandler` by `mon.c14.pair`.
 * the sign bytes are a pure function of the message in the model; the stream recomputes them and compares.
 
-Trusted: that rendering distinct canonical documents gives distinct bytes (JSON), and protobuf/`Any` decoding
+**Known finding F17.**  The structured document is injective; its *rendering* as JSON bytes is injective only on
+strings that are valid UTF-8 (amino-JSON writes U+FFFD for every other byte), and the validators admit other
+strings: `mon.c14.pair.utf8` exhibits two admitted AOL messages with identical legacy sign bytes.
+
+Trusted: that rendering distinct canonical documents with valid UTF-8 strings gives distinct bytes (JSON), and protobuf/`Any` decoding
 being a function of the body bytes.
 -/
 namespace Panacea.C14
